@@ -261,8 +261,23 @@ package builder
 // Directories of one Tree: the list (Tree order, children before parents) and
 // the digest map describe the same set; a directory that was uploaded is in
 // the Tree, so every child a parent refers to is present, exactly once.
+// outfail(nil): failures met below an output directory that have not been
+// recorded with saveError yet. Every failure (a file that cannot be stored, a
+// child directory that cannot be entered or whose own upload fails, a symlink
+// that cannot be read) is recorded before the walk goes on (C10).
+//@ ghost map outfail(ref) int zero
 //@ func (*uploadOutputDirectoryState).uploadDirectory
 //@   props C10
+//@   at call UploadFile#1 ghostset outfail[nil] = outfail(nil) + ite(r1 != nil, 1, 0)
+//@   at call EnterUploadableDirectory#1 ghostset outfail[nil] = outfail(nil) + ite(r1 != nil, 1, 0)
+//@   at call uploadDirectory#1 ghostset outfail[nil] = outfail(nil) + ite(r1 != nil, 1, 0)
+//@   at call Readlink#1 ghostset outfail[nil] = outfail(nil) + ite(r1 != nil, 1, 0)
+//@   at call saveError#1 ghostset outfail[nil] = outfail(nil) - 1
+//@   at call saveError#2 ghostset outfail[nil] = outfail(nil) - 1
+//@   at call saveError#3 ghostset outfail[nil] = outfail(nil) - 1
+//@   at call saveError#5 ghostset outfail[nil] = outfail(nil) - 1
+//@   loop 0 invariant every-failure-so-far-is-recorded: outfail(nil) == old(outfail(nil))
+//@   ensures every-failure-below-this-directory-is-recorded: outfail(nil) == old(outfail(nil))
 //@   requires list-and-map-describe-the-same-directories: len(s.directories) == len(s.directoriesSeen) && s.directoriesSeen != nil
 //@   loop 0 invariant len(s.directories) == len(s.directoriesSeen) && s.directoriesSeen != nil && len(s.directories) >= old(len(s.directories)) && s == old(s)
 //@   ensures list-and-map-describe-the-same-directories: len(s.directories) == len(s.directoriesSeen)
